@@ -32,7 +32,12 @@ func runC13(p *load.Program, r *oblig.Report) {
 }
 
 // returnShapes lists the distinct normalised shapes of the values a function can return.
-func returnShapes(fn *ssa.Function) []string {
+func returnShapes(fn *ssa.Function) []string { return returnShapesWith(fn, an.Shape) }
+
+// returnShapesCanon is returnShapes with canonical rendering (operand order and comparison orientation normalised).
+func returnShapesCanon(fn *ssa.Function) []string { return returnShapesWith(fn, an.ShapeCanon) }
+
+func returnShapesWith(fn *ssa.Function, render func(ssa.Value) string) []string {
 	m := map[string]bool{}
 	var addShape func(s string)
 	addShape = func(s string) { m[s] = true }
@@ -44,11 +49,11 @@ func returnShapes(fn *ssa.Function) []string {
 		v := an.RetVal(ret, 0)
 		if phi, isPhi := v.(*ssa.Phi); isPhi {
 			for _, e := range phi.Edges {
-				addShape(an.Shape(e))
+				addShape(render(e))
 			}
 			return
 		}
-		addShape(an.Shape(v))
+		addShape(render(v))
 	})
 	var out []string
 	for s := range m {
@@ -75,9 +80,9 @@ func c13Shapes(p *load.Program, r *oblig.Report) {
 		"(*RoundRobin).balance":     {"partitions[(int((rr.counter / uint32(rr.ChunkSize))) % len(partitions))]"},
 		"(*RoundRobin).Balance":     {"balance(rr,partitions)"},
 		"(*Hash).Balance":           {"Balance(h.rr,msg,partitions)", "int(φ{(int32(H.Sum32()) % int32(len(partitions))) | -(int32(H.Sum32()) % int32(len(partitions)))})"},
-		"(*ReferenceHash).Balance":  {"Balance(h.rr,msg,partitions)", "int(((int32(H.Sum32()) & 2147483647) % int32(len(partitions))))"},
+		"(*ReferenceHash).Balance":  {"Balance(h.rr,msg,partitions)", "int(((2147483647 & int32(H.Sum32())) % int32(len(partitions))))"},
 		"(CRC32Balancer).Balance":   {"Balance(b.random,msg,partitions)", "partitions[(crc32.ChecksumIEEE(msg.Key) % uint32(len(partitions)))]"},
-		"(Murmur2Balancer).Balance": {"Balance(b.random,msg,partitions)", "partitions[((murmur2(msg.Key) & 2147483647) % uint32(len(partitions)))]"},
+		"(Murmur2Balancer).Balance": {"Balance(b.random,msg,partitions)", "partitions[((2147483647 & murmur2(msg.Key)) % uint32(len(partitions)))]"},
 		"(randomBalancer).Balance":  {"b.mock", "partitions[(rand.Int() % len(partitions))]"},
 	}
 	var names []string
@@ -91,7 +96,7 @@ func c13Shapes(p *load.Program, r *oblig.Report) {
 			r.Lost(rule, "kafka."+name)
 			continue
 		}
-		got := returnShapes(fn)
+		got := returnShapesCanon(fn)
 		w := append([]string{}, want[name]...)
 		sort.Strings(w)
 		r.Check(strings.Join(got, " ;; ") == strings.Join(w, " ;; "), rule, "kafka."+name, p.Pos(fn.Pos()), strings.Join(w, " ;; "), strings.Join(got, " ;; "), got...)
@@ -138,7 +143,7 @@ func c13Shapes(p *load.Program, r *oblig.Report) {
 		return
 	}
 	okRet := false
-	for _, s := range returnShapes(lb) {
+	for _, s := range returnShapesCanon(lb) {
 		if strings.HasPrefix(s, "lb.counters[") && strings.HasSuffix(s, "].partition") {
 			okRet = true
 		}
@@ -158,8 +163,14 @@ func c13Shapes(p *load.Program, r *oblig.Report) {
 	okRebuild := false
 	for _, b := range an.Blocks(lb) {
 		_, ci := an.IfCond(b)
-		if ci != nil && ci.Op == token.NEQ && strings.Contains(an.Shape(ci.X), "len(partitions)") && strings.Contains(an.Shape(ci.Y), "len(lb.counters)") {
-			okRebuild = true
+		if e := ci.Edge(token.NEQ); e >= 0 && (strings.Contains(an.Shape(ci.X), "len(partitions)") && strings.Contains(an.Shape(ci.Y), "len(lb.counters)") || strings.Contains(an.Shape(ci.Y), "len(partitions)") && strings.Contains(an.Shape(ci.X), "len(lb.counters)")) {
+			// the lengths-differ edge rebuilds the counters
+			if ok, _ := an.MustPass(lb, an.Point{B: b.Succs[e], Idx: -1}, func(i ssa.Instruction) bool {
+				_, isSt := fieldStoreIs(i, "LeastBytes", "counters")
+				return isSt
+			}, nil); ok {
+				okRebuild = true
+			}
 		}
 	}
 	r.Check(okRebuild, rule, "kafka.(*LeastBytes).Balance rebuilds its counters when the partition list changes size", p.Pos(lb.Pos()), "if len(partitions) != len(lb.counters) { lb.counters = lb.makeCounters(partitions...) }", "not recognised")
@@ -234,10 +245,10 @@ func edgeControls(d *ssa.BasicBlock, i int, child *ssa.BasicBlock) bool {
 func c13Guards(p *load.Program, r *oblig.Report) {
 	const rule = "C13.R3 key rules for the fallback balancer"
 	want := map[string]string{
-		"(*Hash).Balance":           "msg.Key == nil",
-		"(*ReferenceHash).Balance":  "msg.Key == nil",
-		"(CRC32Balancer).Balance":   "len(msg.Key) == 0 ∧ ¬(b.Consistent)",
-		"(Murmur2Balancer).Balance": "msg.Key == nil ∧ ¬(b.Consistent)",
+		"(*Hash).Balance":           "(nil == msg.Key)",
+		"(*ReferenceHash).Balance":  "(nil == msg.Key)",
+		"(CRC32Balancer).Balance":   "(0 == len(msg.Key)) ∧ ¬b.Consistent",
+		"(Murmur2Balancer).Balance": "(nil == msg.Key) ∧ ¬b.Consistent",
 	}
 	var names []string
 	for k := range want {
@@ -261,7 +272,7 @@ func c13Guards(p *load.Program, r *oblig.Report) {
 			r.Bad(rule, "kafka."+name+" → fallback call", p.Pos(fn.Pos()), "one delegation to the round-robin/random balancer", fmt.Sprint(len(fb)))
 			continue
 		}
-		g := guardOf(fb[0].(ssa.Instruction))
+		g := clean(strings.Join(selConds(fb[0].(ssa.Instruction)), " ∧ "))
 		r.Check(g == want[name], rule, "kafka."+name+" delegates exactly when the key carries no information", p.Pos(fb[0].Pos()), want[name], g)
 	}
 }
@@ -317,11 +328,11 @@ func c13Counters(p *load.Program, r *oblig.Report) {
 		ok := false
 		for _, b := range an.Blocks(fn) {
 			_, ci := an.IfCond(b)
-			if ci == nil || ci.Op != token.NEQ || !an.IsNilConst(ci.Y) || !strings.HasSuffix(argDesc(ci.X), ".Hasher") {
+			if ci.Edge(token.NEQ) < 0 || !an.IsNilConst(ci.Y) || !strings.HasSuffix(argDesc(ci.X), ".Hasher") {
 				continue
 			}
 			locks, unlockDeferred := false, false
-			for _, ins := range b.Succs[0].Instrs {
+			for _, ins := range b.Succs[ci.Edge(token.NEQ)].Instrs {
 				if isMutexOp(ins, "lock", false) {
 					locks = true
 				}
@@ -404,23 +415,77 @@ func c13Cache(p *load.Program, r *oblig.Report) {
 		r.Lost(rule, "kafka.loadCachedPartitions")
 		return
 	}
-	shapes := returnShapes(fn)
-	okPrefix := len(shapes) == 2
-	for _, s := range shapes {
-		if !strings.HasSuffix(s, "[:numPartitions]") {
-			okPrefix = false
+	// every returned value is <list>[:numPartitions] with <list> the cached list or the freshly made one
+	okPrefix := true
+	var shapes []string
+	nRet := 0
+	an.EachInstr(fn, func(ins ssa.Instruction) {
+		ret, ok := ins.(*ssa.Return)
+		if !ok || len(ret.Results) != 1 {
+			return
 		}
-	}
-	r.Check(okPrefix, rule, "loadCachedPartitions returns the first numPartitions elements", p.Pos(fn.Pos()), "partitions[:numPartitions] on both paths", strings.Join(shapes, " ;; "))
-	// cache hit only when long enough (len, not cap)
-	okHit := false
+		nRet++
+		v := an.RetVal(ret, 0)
+		vals := []ssa.Value{v}
+		if phi, isPhi := v.(*ssa.Phi); isPhi {
+			vals = phi.Edges
+		}
+		for _, x := range vals {
+			shapes = append(shapes, clean(an.ShapeCanon(x)))
+			sl, isSl := x.(*ssa.Slice)
+			if !isSl || sl.Low != nil || sl.High == nil || clean(an.ShapeCanon(sl.High)) != "numPartitions" {
+				okPrefix = false
+				continue
+			}
+			for _, o := range an.Origins(sl.X, an.FlowOpts{}) {
+				if !(o.Kind == "make" || (o.Kind == "call" && strings.Contains(o.Name, "Load")) || o.Kind == "alloc") {
+					okPrefix = false
+				}
+			}
+		}
+	})
+	r.Check(okPrefix && nRet >= 1, rule, "loadCachedPartitions returns the first numPartitions elements", p.Pos(fn.Pos()), "<cached or fresh list>[:numPartitions] on every path", strings.Join(shapes, " ;; "))
+	// cache hit only when long enough (len, not cap): on the edge where len(cached) < numPartitions, and on the edge
+	// where nothing usable is cached, every path to a return makes a new list
+	isMake := func(i ssa.Instruction) bool { _, ok := i.(*ssa.MakeSlice); return ok }
+	okLen, okMiss := false, false
 	for _, b := range an.Blocks(fn) {
-		_, ci := an.IfCond(b)
-		if ci != nil && ci.Op == token.LEQ && strings.HasPrefix(an.Shape(ci.Y), "len(") && an.Shape(ci.X) == "numPartitions" { // len(partitions) >= numPartitions
-			okHit = true
+		iff, ci := an.IfCond(b)
+		if iff == nil || ci == nil {
+			continue
+		}
+		short := -1 // successor taken when the cached list is too short
+		switch {
+		case ci.Op == token.LEQ && an.Shape(ci.X) == "numPartitions" && strings.HasPrefix(an.Shape(ci.Y), "len("): // n <= len
+			short = 1
+		case ci.Op == token.LSS && an.Shape(ci.Y) == "numPartitions" && strings.HasPrefix(an.Shape(ci.X), "len("): // len < n
+			short = 0
+		}
+		if short >= 0 {
+			if ci.Neg {
+				short = 1 - short
+			}
+			if ok, _ := an.MustPass(fn, an.Point{B: b.Succs[short], Idx: -1}, isMake, nil); ok {
+				okLen = true
+			}
+			continue
+		}
+		// the comma-ok of the type assertion on the cached value
+		if ci.Op == token.ILLEGAL {
+			if ex, isEx := ci.X.(*ssa.Extract); isEx && ex.Index == 1 {
+				if ta, isTA := ex.Tuple.(*ssa.TypeAssert); isTA && ta.CommaOk {
+					miss := 1
+					if ci.Neg {
+						miss = 0
+					}
+					if ok, _ := an.MustPass(fn, an.Point{B: b.Succs[miss], Idx: -1}, isMake, nil); ok {
+						okMiss = true
+					}
+				}
+			}
 		}
 	}
-	r.Check(okHit, rule, "loadCachedPartitions reuses the cached list only if its length covers the request", p.Pos(fn.Pos()), "len(partitions) >= numPartitions", "not recognised")
+	r.Check(okLen && okMiss, rule, "loadCachedPartitions reuses the cached list only if its length covers the request", p.Pos(fn.Pos()), "a new list is made whenever nothing is cached or len(cached) < numPartitions", fmt.Sprintf("remadeWhenShort=%v remadeWhenAbsent=%v", okLen, okMiss))
 	// the fresh slice is fully initialised: make with len == cap, partitions[i] = i for i over the whole slice
 	okMake, okFill := false, false
 	an.EachInstr(fn, func(ins ssa.Instruction) {
